@@ -33,8 +33,8 @@ class Prover:
     """validity of real-arithmetic facts under the base assumptions of a configuration"""
 
     def __init__(self, base, timeout_ms=20000):
-        self.s = z3.Solver()
-        self.s.set('timeout', timeout_ms)
+        self.s = _Hyps()
+        self.timeout_ms = timeout_ms
         for c in base:
             self.s.add(c)
         self.cache = {}
@@ -52,19 +52,68 @@ class Prover:
         self._keep.append((e, extra))
         self.queries += 1
         t0 = symx._now()
-        self.s.push()
-        for c in extra:
-            self.s.add(c)
-        self.s.add(z3.Not(e))
-        r = self.s.check()
-        m = self.s.model() if r == z3.sat else None
-        self.s.pop()
+        # divisions are eliminated: a/b -> q with q*b == a (b != 0 is guaranteed by the engine's
+        # ZeroDivisionError fork at the division site); nlsat then sees polynomials only
+        defs = []
+        memo = {}
+        goal = elim_div(e, defs, memo)
+        hyps = [elim_div(c, defs, memo) for c in extra]
+        # a fresh, non-incremental solver per query: z3 then runs its complete nlsat procedure
+        # (the incremental core's nonlinear arithmetic is incomplete and answers unknown)
+        sol = z3.Solver()
+        sol.set('timeout', self.timeout_ms)
+        for c in self.s.hyps:
+            sol.add(elim_div(c, defs, memo))
+        for c in hyps:
+            sol.add(c)
+        for (q, a, b) in defs:
+            sol.add(z3.Implies(b != 0, q * b == a))
+        sol.add(z3.Not(goal))
+        r = sol.check()
+        m = sol.model() if r == z3.sat else None
         self.seconds += symx._now() - t0
         if r == z3.unknown:
             raise Inconclusive('z3 unknown on law obligation: %s' % str(e)[:200])
         res = (r == z3.unsat, m)
         self.cache[key] = res
         return res
+
+
+class _Hyps:
+    def __init__(self):
+        self.hyps = []
+
+    def add(self, c):
+        self.hyps.append(c)
+
+
+_qcount = [0]
+
+
+def elim_div(e, defs, memo):
+    k = e.get_id()
+    if k in memo:
+        return memo[k]
+    if z3.is_const(e) or z3.is_rational_value(e) or z3.is_int_value(e) or not z3.is_app(e):
+        memo[k] = e
+        return e
+    ch = [elim_div(c, defs, memo) for c in e.children()]
+    if e.decl().kind() == z3.Z3_OP_DIV:
+        a, b = ch
+        bs = z3.simplify(b)
+        if z3.is_rational_value(bs) and bs.numerator_as_long() != 0:
+            r = a / b
+        else:
+            _qcount[0] += 1
+            q = z3.Real('q!%d' % _qcount[0])
+            defs.append((q, a, b))
+            r = q
+    elif ch:
+        r = e.decl()(*ch)
+    else:
+        r = e
+    memo[k] = r
+    return r
 
 
 def _mentions(expr, var):
